@@ -1172,17 +1172,30 @@ func freeBound(t *Term, closed []*Term, hasBound map[*Term]bool) bool {
 	return rec(t)
 }
 
-// FreeVars returns the free (non-bound) variables and UF names of t.
+// collectSyms gathers the symbols that connect assertions for relevance slicing: free variables, except that the big
+// shared heap arrays (array-of-array sorts) do not count by themselves — an access to heap H at region r contributes
+// the token "H@<r>" instead, so that facts about unrelated regions are not pulled in through the heap variable.
+func isHub(t *Term) bool {
+	return t.Op == "var" && t.S.K == KArr && t.S.Elem.K == KArr
+}
+
 func collectSyms(t *Term, seen map[*Term]bool, out map[string]bool) {
 	if seen[t] {
 		return
 	}
 	seen[t] = true
 	if t.Op == "var" {
-		if !strings.HasPrefix(t.Name, "?") {
+		if !strings.HasPrefix(t.Name, "?") && !isHub(t) {
 			out[t.Name] = true
 		}
 		return
+	}
+	if (t.Op == "select" || t.Op == "store") && len(t.Args) >= 2 && t.Args[0].S.K == KArr && t.Args[0].S.Elem.K == KArr {
+		for _, r := range rootsOf(t.Args[0]) {
+			if isHub(r) {
+				out[fmt.Sprintf("%s@%d", r.Name, t.Args[1].id)] = true
+			}
+		}
 	}
 	for _, a := range t.Args {
 		collectSyms(a, seen, out)
